@@ -1,6 +1,7 @@
 CONSTANTS
   MaxThreads = 2
   MaxPasses = 2
+  MaxCmds = 6
 SPECIFICATION Spec
 INVARIANT FlagDownWhenNobodyRuns
 CONSTRAINT Bound
